@@ -42,7 +42,8 @@ def solve(A, b, Delta):
         pz = p@z
         pp = p@p
         ddmpp = Delta*Delta-pp
-        tau = ddmpp / (pz + np.sign(pz)*np.sqrt(pz*pz + ddmpp))
+        sgn = np.where(pz < 0, -1.0, 1.0) # sign(0) must not be 0 here
+        tau = ddmpp / (pz + sgn*np.sqrt(pz*pz + ddmpp))
         return p + tau * z
 
     pNormSq = pnorm_squared(bvv, sig+lam)
